@@ -23,10 +23,11 @@ def _spec(module):
             'rules': [eff.eff1, eff.eff2, eff.eff3, eff.eff4, eff.eff5],
         }]
     if module == 'utils':
-        from . import tab, lst, out
+        from . import tab, lst, out, utilsx
         return [{
             'units': {'cJSON.c': 'core_min.c', 'cJSON_Utils.c': 'utils_bad.c'},
-            'rules': [tab.tab8, tab.tab9, tab.tab10, tab.tab11, tab.tab12, lst.lst1, out.out5, out.out6, out.out7],
+            'rules': [tab.tab8, tab.tab9, tab.tab10, tab.tab11, tab.tab12, lst.lst1, out.out5, out.out6, out.out7,
+                      utilsx.tab18, utilsx.ord1],
         }]
     if module == 'parse':
         from . import bnd, bnd3, parse, tab
